@@ -1,8 +1,12 @@
 import Driver.Proto
+import Driver.C13
+import Driver.C13Mon
 import Driver.C16
 import Driver.C16Mon
 
 def suites : List (String × Driver.Suite) :=
+  Driver.C13.suites ++
+  Driver.C13Mon.suites ++
   Driver.C16.suites ++
   Driver.C16Mon.suites
 
